@@ -2,6 +2,7 @@ package props
 
 import (
 	"bytes"
+	"encoding/json"
 	"fmt"
 	"math"
 	"strconv"
@@ -136,65 +137,99 @@ func TestC16(t *testing.T) {
 		if err := qf.ToJSON(&buf); err != nil {
 			t.Fatalf("ToJSON: %v", err)
 		}
-		// assemble the expected document with strconv
-		var exp bytes.Buffer
-		type valuePos struct{ off, row, col int }
-		var valueAt []valuePos
-		exp.WriteByte('[')
+		// Read the number texts out of the document with encoding/json's tokenizer (UseNumber keeps the
+		// text as written). Only the float texts are compared: whitespace, key quoting or string escaping
+		// are not C16's business. +-Inf cannot be tokenized (not JSON): such frames are compared by their
+		// +Inf/-Inf occurrences below.
+		got := buf.Bytes()
+		infs := 0
+		for _, c := range tab.Cols {
+			if c.Kind == hx.KFloat {
+				for _, f := range c.F {
+					if math.IsInf(f, 0) {
+						infs++
+					}
+				}
+			}
+		}
+		if infs > 0 {
+			plus, minus := 0, 0
+			for _, c := range tab.Cols {
+				if c.Kind == hx.KFloat {
+					for _, f := range c.F {
+						if math.IsInf(f, 1) {
+							plus++
+						} else if math.IsInf(f, -1) {
+							minus++
+						}
+					}
+				}
+			}
+			if bytes.Count(got, []byte("+Inf")) != plus || bytes.Count(got, []byte("-Inf")) != minus {
+				t.Fatalf("frame holds %d +Inf and %d -Inf but the document has %d and %d occurrences (strconv writes +Inf/-Inf)", plus, minus,
+					bytes.Count(got, []byte("+Inf")), bytes.Count(got, []byte("-Inf")))
+			}
+			// make the document tokenizable: the infinities become a sentinel number
+			got = bytes.ReplaceAll(bytes.ReplaceAll(got, []byte("+Inf"), []byte("1e999")), []byte("-Inf"), []byte("-1e999"))
+		}
+		dec := json.NewDecoder(bytes.NewReader(got))
+		dec.UseNumber()
+		fail := func(r int, c hx.Col, text string) {
+			f := c.F[r]
+			lo := bytes.Index(got, []byte(text))
+			ctx := ""
+			if lo >= 0 {
+				a, b := lo-40, lo+len(text)+40
+				if a < 0 {
+					a = 0
+				}
+				if b > len(got) {
+					b = len(got)
+				}
+				ctx = string(got[a:b])
+			}
+			t.Fatalf("row %d column %s value %v (bits %#x) is written as %q, strconv.FormatFloat(f,'f',-1,64) gives %q\ncontext …%s…\nrows=%d floatcols=%d strcol=%s strmax=%d class=%d",
+				r, c.Name, f, math.Float64bits(f), text, strconv.FormatFloat(f, 'f', -1, 64), ctx, n, nf, strPos, strMax, classMix)
+		}
+		expectDelim := func(d json.Delim) {
+			tok, err := dec.Token()
+			if err != nil || tok != d {
+				t.Fatalf("ToJSON output is not the expected array of objects: got token %v (%v), want %v; output starts %q", tok, err, d, clipS(string(got)))
+			}
+		}
+		expectDelim('[')
 		for r := 0; r < n; r++ {
-			if r > 0 {
-				exp.WriteByte(',')
-			}
-			exp.WriteByte('{')
-			for ci, c := range tab.Cols {
-				if ci > 0 {
-					exp.WriteByte(',')
+			expectDelim('{')
+			for _, c := range tab.Cols {
+				if _, err := dec.Token(); err != nil { // key
+					t.Fatalf("record %d: %v", r, err)
 				}
-				exp.WriteString(`"` + c.Name + `":`)
-				if c.Kind == hx.KString {
-					exp.WriteString(`"` + *c.S[r] + `"`)
-				} else {
-					f := c.F[r]
-					txt := strconv.FormatFloat(f, 'f', -1, 64)
-					valueAt = append(valueAt, valuePos{off: exp.Len(), row: r, col: ci})
-					exp.WriteString(txt)
-					hashes = append(hashes, math.Float64bits(f))
+				tok, err := dec.Token()
+				if err != nil {
+					t.Fatalf("record %d column %s: %v", r, c.Name, err)
+				}
+				if c.Kind != hx.KFloat {
+					continue
+				}
+				num, ok := tok.(json.Number)
+				if !ok {
+					t.Fatalf("record %d column %s: value %v is not a number", r, c.Name, tok)
+				}
+				f := c.F[r]
+				want := strconv.FormatFloat(f, 'f', -1, 64)
+				if math.IsInf(f, 1) {
+					want = "1e999"
+				} else if math.IsInf(f, -1) {
+					want = "-1e999"
+				}
+				hashes = append(hashes, math.Float64bits(f))
+				if string(num) != want {
+					fail(r, c, string(num))
 				}
 			}
-			exp.WriteByte('}')
+			expectDelim('}')
 		}
-		exp.WriteByte(']')
-		got, want := buf.Bytes(), exp.Bytes()
-		if !bytes.Equal(got, want) {
-			// locate the first differing value for the report
-			i := 0
-			for i < len(got) && i < len(want) && got[i] == want[i] {
-				i++
-			}
-			lo := i - 60
-			if lo < 0 {
-				lo = 0
-			}
-			hiG, hiW := i+60, i+60
-			if hiG > len(got) {
-				hiG = len(got)
-			}
-			if hiW > len(want) {
-				hiW = len(want)
-			}
-			// which value? (offsets of the values in the expected document were recorded while assembling it)
-			msg := ""
-			for k := len(valueAt) - 1; k >= 0; k-- {
-				if valueAt[k].off <= i {
-					c := tab.Cols[valueAt[k].col]
-					f := c.F[valueAt[k].row]
-					msg = fmt.Sprintf("row %d column %s value %v (bits %#x) must be written as %q", valueAt[k].row, c.Name, f, math.Float64bits(f), strconv.FormatFloat(f, 'f', -1, 64))
-					break
-				}
-			}
-			t.Fatalf("ToJSON float text differs from strconv.FormatFloat(f,'f',-1,64) at byte %d: got …%q… want …%q…\n%s\nrows=%d floatcols=%d strcol=%s strmax=%d class=%d seed-derived",
-				i, got[lo:hiG], want[lo:hiW], msg, n, nf, strPos, strMax, classMix)
-		}
+		expectDelim(']')
 		// (the expected text parses back to the identical float64 - a property of strconv, asserted once per value for completeness)
 		nonzero := 0
 		for _, c := range tab.Cols {
